@@ -49,7 +49,9 @@ def run(eng, ctx):
                   found=f"{len(reads) - len(late)} before, {len(late)} after: " + ", ".join(norm(r.node) for r in late), **eng.loc(asm, p.node))
         # the parse call is not inside a try that could swallow its exception and then read again
         ctx.check(not p.trys, "C05.D1", asm.qualname, "parse failure propagates out of the assembler", expected="no local handler", found=f"inside try {p.trys}", **eng.loc(asm, p.node))
-    if not parses:
+    if not parses and not eng.parse_in_assembler:
+        ctx.undecided("C05.D1", asm.qualname, "static parser call", detail=eng.NOT_FOLLOWED, **eng.loc(asm, asm.node))
+    elif not parses:
         ctx.bad("C05.D1", asm.qualname, "static parser call", expected="one call", found="none", **eng.loc(asm, asm.node))
     gate = SH.header_gate(eng, ctx, "C01.D1", m, mode="not-stricter")
     SH.read_script(eng, ctx, "C01.D2", gate)
